@@ -286,6 +286,18 @@ def run_case(case, ctx, acc):
                                 and g0['charge'] * p0['charge'] > 0 and reskey_of(p0) not in listed
                                 and not any(x[0] == pkey for x in g['dets']['sidechain'])):
                             v.append(('hbond-partner-lost/sidechain-I-same-charge', '%s lost its hydrogen bond with unlisted %s (default %r)' % (k, pkey, val)))
+                    # iteratively treated acid-base pairs book the hydrogen bond on both groups whenever the acid is the more acidic
+                    # of the two (values without the pair's own contribution).  If the bond of the default run is absent with the list,
+                    # the values of this run are values without it, so the acid must not be more acidic than the base
+                    for pkey, lab, val in g0['dets']['sidechain']:
+                        p0, p1 = g0s.get(pkey), gs.get(pkey)
+                        if (p0 is not None and p1 is not None and params.interaction_matrix.get_value(g0['type'], p0['type']) == 'I'
+                                and g0['charge'] * p0['charge'] < 0 and reskey_of(p0) not in listed
+                                and not any(x[0] == pkey for x in g['dets']['sidechain'])):
+                            acid, base = (g, p1) if g0['charge'] < 0 else (p1, g)
+                            if acid['pka'] < base['pka'] - 0.01:
+                                v.append(('hbond-partner-lost/sidechain-I-acid-base', '%s lost its hydrogen bond with unlisted %s (default %r) although pKa(acid) %.2f < pKa(base) %.2f' % (
+                                    k, pkey, val, acid['pka'], base['pka'])))
                     lost = [x for x in nside(g0, g0s) if x not in nside(g, gs)]
                     if lost:
                         v.append(('hbond-partner-lost/sidechain-N', '%s lost %r (default %r)' % (k, lost, nside(g0, g0s))))
